@@ -6,6 +6,7 @@
 // pairs2:<kind> (thorough: every double mutation against base and every single mutant, both directions).
 // Reference: equality of an independent canonical dump (c10c11.hpp: children as sorted multisets); never calls equals().
 #include "c10c11.hpp"
+#include <algorithm>
 
 using namespace vf;
 
@@ -244,24 +245,53 @@ static bool explain(CNode &a, CNode &b, const std::string &path, std::set<std::s
             classes.insert(path + a.kind + ">" + K + ":receiver-strictly-fewer-every-receiver-child-matched");
         } else if (K == "component") {
             if (A.size() != Bv.size()) return false;
-            for (CNode *x : ra) {
-                bool found = false;
-                for (auto &y : Bv) if (y.str() == x->str()) found = true;
-                if (found) {
-                    classes.insert(path + a.kind + ">component:every-receiver-child-contained-but-multisets-differ");
-                    continue;
-                }
-                for (auto &y : Bv) {
+            // edge x~y: the two children are identical, or "equals says true" between them is itself explained by a recorded form.
+            // containsComponent() runs equals() with the OTHER side's child as receiver (the direction flips at every level); the
+            // unflipped direction is accepted too so that the class survives a repair of form (2) alone.
+            size_t n = A.size();
+            std::vector<std::vector<int>> edge(n, std::vector<int>(n, 0)); // 0 none, 1 identical, 2 explained
+            std::vector<std::vector<std::set<std::string>>> why(n, std::vector<std::set<std::string>>(n));
+            for (size_t x = 0; x < n; ++x) {
+                for (size_t y = 0; y < n; ++y) {
+                    if (A[x].str() == Bv[y].str()) { edge[x][y] = 1; continue; }
                     std::set<std::string> sub;
-                    // containsComponent() runs equals() with the OTHER side's child as receiver (the direction flips at every level);
-                    // the unflipped direction is accepted too so that the class survives a repair of form (2) alone
-                    if (explain(y, *x, path + a.kind + ">", sub) || (sub.clear(), explain(*x, y, path + a.kind + ">", sub))) {
-                        classes.insert(sub.begin(), sub.end());
-                        found = true;
-                        break;
+                    if (explain(Bv[y], A[x], path + a.kind + ">", sub) || (sub.clear(), explain(A[x], Bv[y], path + a.kind + ">", sub))) {
+                        edge[x][y] = 2;
+                        why[x][y] = sub;
                     }
                 }
-                if (!found) return false;
+            }
+            for (size_t x = 0; x < n; ++x) {
+                bool any = false;
+                for (size_t y = 0; y < n; ++y) any = any || edge[x][y];
+                if (!any) return false; // a receiver child that nothing on the other side could be taken for
+            }
+            // a one-to-one pairing along such edges means the answer follows from the children's answers (their classes are
+            // reported); without one, every receiver child is merely CONTAINED in the other side: set, not multiset, comparison
+            std::vector<size_t> perm(n);
+            for (size_t k = 0; k < n; ++k) perm[k] = k;
+            bool paired = false;
+            size_t bestCost = ~size_t(0);
+            std::vector<size_t> best;
+            do {
+                size_t cost = 0;
+                bool ok = true;
+                for (size_t x = 0; x < n && ok; ++x) {
+                    if (!edge[x][perm[x]]) ok = false;
+                    else if (edge[x][perm[x]] == 2) ++cost;
+                }
+                if (ok && cost < bestCost) { bestCost = cost; best = perm; paired = true; }
+            } while (std::next_permutation(perm.begin(), perm.end()));
+            if (paired) {
+                for (size_t x = 0; x < n; ++x) classes.insert(why[x][best[x]].begin(), why[x][best[x]].end());
+            } else {
+                classes.insert(path + a.kind + ">component:every-receiver-child-contained-but-multisets-differ");
+                for (size_t x = 0; x < n; ++x) {
+                    for (size_t y = 0; y < n; ++y) {
+                        if (edge[x][y] == 2) { classes.insert(why[x][y].begin(), why[x][y].end()); break; }
+                        if (edge[x][y] == 1) break;
+                    }
+                }
             }
         } else {
             return false;
